@@ -36,6 +36,30 @@ CHECKS = {
         note="Bounded: histories <=4 calls (model invariants to depth 7); built-ins abstracted to L, La, Ls, R, K; TLC and the replay driver are trusted.",
         technique="TLA+ spec (Registry.tla) + TLC exhaustive BFS; spec->code replay of every history with per-step comparison of all registry observations",
     ),
+    "C03": dict(
+        text="specs/CDC.tla models the scanner (character level), the shift/reduce parser with its shared stack, exact decimal "
+             "arithmetic and the printer; specs/CDCRound.tla enumerates (generator tree, spelling options) pairs - connection shapes, "
+             "parameter value/limit/fixed grids around the class defaults, labels, container sub-circuits (open/short/bare list/"
+             "bracketed/nested) x omitted defaults, omitted/percent limits, f/F, short|zero, open|inf, bare lists, white space, "
+             "version header, implicit outer series, decimals - and TLC checks on the model that every spelling denotes the "
+             "generator's circuit and that printing is idempotent. Every pair is replayed: the spelled text goes through the real "
+             "parse_cdc and is compared with the generator's tree (the oracle); canonical pairs are also built through the API, "
+             "serialised, parsed back, deep-copied, re-serialised and simulated.",
+        design_ref="§4 C03",
+        note="Bounded trees (<=4 leaves, depth <=3, one varied leaf per tree); classes R, C, L, Q, Tlm; exactly printable grid values; labels with unbalanced braces or starting with punctuation are recorded known findings.",
+        technique="TLA+ spec (CDC.tla, CDCRound.tla) + TLC over all (tree, spelling) pairs; spec->code replay of every generated text with the generator tree as oracle",
+    ),
+    "C04": dict(
+        text="specs/CDCTotal.tla feeds every sequence of <=N lexical atoms (several alphabets incl. composite atoms) to the "
+             "scanner/parser model of CDC.tla; TLC checks NoCrash (outcome is a circuit, a parsing/tokenizing error or an explained "
+             "ValueError) and WellFormed on the model, and every enumerated string is given to the real parse_cdc: any other "
+             "exception class, an accepted circuit that cannot be simulated-or-refused, or whose serialisation is rejected, is a "
+             "violation; model/code disagreement inside the allowed outcomes is reported as drift. Deeply nested inputs are added "
+             "by the harness.",
+        design_ref="§4 C04",
+        note="Bounded: N<=5 atoms per alphabet (exhaustive); the model's recursion is unbounded, the implementation's depth limit is probed separately; NotImplementedError from the general transmission line model counts as a deliberate refusal.",
+        technique="TLA+ spec (CDC.tla, CDCTotal.tla) + TLC exhaustive enumeration of atom sequences; spec->code replay of every input with outcome-class comparison",
+    ),
 }
 
 NOT_APPLICABLE = {
